@@ -208,7 +208,10 @@ class Env:
                   lambda: q.where(s["T2"].a == 1), lambda: q.select(s["T1"].z), lambda: q.select("*"), lambda: q.with_(self.Q.from_(P.Table("t7")).select("a"), "c7"),
                   lambda: q.into(s["T2"]), lambda: q.update(s["T2"]), lambda: q.delete(), lambda: q.insert(9), lambda: q.on_conflict("z"),
                   lambda: q.do_nothing(), lambda: q.do_update("z", 1), lambda: q.groupby(s["T1"].a), lambda: q.orderby(s["T1"].a),
-                  lambda: q.limit(1), lambda: q.set("z", 1), lambda: q.columns("z"), lambda: q.distinct()):
+                  lambda: q.limit(1), lambda: q.set("z", 1), lambda: q.columns("z"), lambda: q.distinct(),
+                  lambda: q.select(s["T1"].zz.as_("ala"), s["T1"].zy.as_("alx"), s["T1"].zx.as_("aly"), s["T1"].zw.as_("alb")),
+                  lambda: q.groupby(s["T1"].zz.as_("ala")), lambda: q.orderby(s["T1"].zz.as_("alx")), lambda: q.having(s["T1"].zz == 1),
+                  lambda: q.offset(1), lambda: q.for_update(), lambda: q.force_index("zi"), lambda: q.use_index("zj")):
             try:
                 f()
             except Exception:  # noqa
